@@ -167,19 +167,19 @@ Proof.
 Qed.
 
 Section Mol.
-  Variable skip : bool -> frag -> bool.
+  Variable skip : opts -> frag -> bool.
 
   (* what one fragment adds to component j of the vote vector at k *)
-  Definition contrib (ds : bool) (f : frag) (k : key) (j : nat) : Z :=
+  Definition contrib (ds : opts) (f : frag) (k : key) (j : nat) : Z :=
     if skip ds f then 0 else
     match frag_consensus ds f with
     | Ok items => vnth j (tget k (vote_items items []))
     | _ => 0
     end.
   (* the fragment makes Molecule.get_consensus raise IndexError *)
-  Definition raises (ds : bool) (f : frag) : bool :=
+  Definition raises (ds : opts) (f : frag) : bool :=
     negb (skip ds f) && match frag_consensus ds f with IndexError => true | _ => false end.
-  Definition V (ds : bool) (fs : list frag) (k : key) (j : nat) : Z := zsum (map (fun f => contrib ds f k j) fs).
+  Definition V (ds : opts) (fs : list frag) (k : key) (j : nat) : Z := zsum (map (fun f => contrib ds f k j) fs).
 
   Lemma mol_table_cons ds f rest t :
     mol_table skip ds (f :: rest) t =
@@ -365,7 +365,7 @@ Definition strict_max (W : nat -> Z) (i : nat) : Prop :=
   (i < 5)%nat /\ forall j, (j < 5)%nat -> j <> i -> W j < W i.
 
 Section Cons.
-  Variable skip : bool -> frag -> bool.
+  Variable skip : opts -> frag -> bool.
 
   Lemma mol_consensus_ok ds fs out : mol_consensus skip ds fs = Ok out ->
     exists t, mol_table skip ds fs [] = Ok t /\ out = finish t /\ NoDup (dkeys t) /\
@@ -432,14 +432,14 @@ Proof.
   intros H. destruct (G [] H) as [H1|H1]; [discriminate|assumption].
 Qed.
 
-Lemma read_dict_base_ok w o d k b q : read_dict w o = Ok d ->
+Lemma read_dict_base_ok w fl o d k b q : read_dict w fl o = Ok d ->
   match o with Some r => read_bases_ok r = true | None => True end ->
   dget k d = Some (b, q) -> base_index b <> None.
 Proof.
   destruct o as [r|]; cbn [read_dict]; [|intros H; inversion H; subst; discriminate].
   destruct (r_md r); [|discriminate]. intros H Hok Hg. inversion H; subst. clear H.
   apply dict_of_get in Hg. unfold read_items in Hg. apply in_map_iff in Hg.
-  destruct Hg as ([[p b'] q'] & Heq & Hin). inversion Heq; subst. apply filter_In in Hin. destruct Hin as [Hin _].
+  destruct Hg as ([[[[p b'] q'] qp] rb] & Heq & Hin). inversion Heq; subst. apply filter_In in Hin. destruct Hin as [Hin _].
   unfold read_bases_ok in Hok. rewrite forallb_forall in Hok. specialize (Hok _ Hin). cbn in Hok.
   destruct (base_index b); [discriminate|discriminate].
 Qed.
@@ -486,7 +486,7 @@ Qed.
 Lemma dkeys_map_keys {A} (g : key -> A) ks : dkeys (map (fun k => (k, g k)) ks) = ks.
 Proof. unfold dkeys. rewrite map_map. cbn [fst]. apply map_id. Qed.
 
-Lemma read_dict_nodup w o d : read_dict w o = Ok d -> NoDup (dkeys d).
+Lemma read_dict_nodup w fl o d : read_dict w fl o = Ok d -> NoDup (dkeys d).
 Proof.
   destruct o as [r|]; cbn [read_dict].
   - destruct (r_md r); [|discriminate]. intros H; inversion H. apply dict_of_nodup.
@@ -496,14 +496,14 @@ Qed.
 (* the pieces of Fragment.get_consensus when it returns *)
 Lemma frag_consensus_ok ds f items : frag_consensus ds f = Ok items ->
   exists r1 r2 w d1 d2, nth_error f 0 = Some r1 /\ nth_error f 1 = Some r2 /\ window ds r1 r2 = Ok w /\
-    read_dict w r1 = Ok d1 /\ read_dict w r2 = Ok d2 /\
+    read_dict w (flt1 ds) r1 = Ok d1 /\ read_dict w (flt2 ds) r2 = Ok d2 /\
     items = map (fun k => (k, pick_best [dget k d1; dget k d2])) (union_keys d1 d2).
 Proof.
   unfold frag_consensus. destruct (nth_error f 0) as [r1|] eqn:E1; [|discriminate].
   destruct (nth_error f 1) as [r2|] eqn:E2; [|discriminate].
   destruct (window ds r1 r2) as [w| |] eqn:E3; try discriminate.
-  destruct (read_dict w r1) as [d1| |] eqn:E4; try discriminate.
-  destruct (read_dict w r2) as [d2| |] eqn:E5; try discriminate.
+  destruct (read_dict w (flt1 ds) r1) as [d1| |] eqn:E4; try discriminate.
+  destruct (read_dict w (flt2 ds) r2) as [d2| |] eqn:E5; try discriminate.
   intros H. inversion H. exists r1, r2, w, d1, d2. repeat split; assumption.
 Qed.
 
@@ -577,7 +577,7 @@ Definition res_equiv (a b : Res (dict Z)) : Prop :=
   end.
 
 Section Major.
-  Variable skip : bool -> frag -> bool.
+  Variable skip : opts -> frag -> bool.
 
   Lemma frag_call_items ds f items k : skip ds f = false -> frag_consensus ds f = Ok items ->
     frag_call skip ds f k =
@@ -595,8 +595,8 @@ Section Major.
     unfold frag_call, frag_consensus. destruct (skip ds f); [reflexivity|]. intros [H|H]; [discriminate|].
     destruct (nth_error f 0) as [r1|]; [|reflexivity]. destruct (nth_error f 1) as [r2|]; [|reflexivity].
     destruct (window ds r1 r2) as [w| |]; try reflexivity.
-    destruct (read_dict w r1) as [d1| |]; try reflexivity.
-    destruct (read_dict w r2) as [d2| |]; try reflexivity.
+    destruct (read_dict w (flt1 ds) r1) as [d1| |]; try reflexivity.
+    destruct (read_dict w (flt2 ds) r2) as [d2| |]; try reflexivity.
     exfalso. eapply H. reflexivity.
   Qed.
 
@@ -605,8 +605,8 @@ Section Major.
     unfold frag_call. destruct (skip ds f); [discriminate|].
     destruct (nth_error f 0) as [r1|]; [|discriminate]. destruct (nth_error f 1) as [r2|]; [|discriminate].
     destruct (window ds r1 r2) as [w| |]; try discriminate.
-    destruct (read_dict w r1) as [d1| |]; try discriminate.
-    destruct (read_dict w r2) as [d2| |]; try discriminate.
+    destruct (read_dict w (flt1 ds) r1) as [d1| |]; try discriminate.
+    destruct (read_dict w (flt2 ds) r2) as [d2| |]; try discriminate.
     destruct (dget k d1) as [c1|], (dget k d2) as [c2|]; try discriminate;
       destruct (fst (pick_best _) =? bN) eqn:E; try discriminate;
       intros H; inversion H as [H']; rewrite H' in E; discriminate.
@@ -656,7 +656,7 @@ Section Major.
     exfalso. eapply frag_call_not_N. eassumption.
   Qed.
 
-  Definition is_majority (ds : bool) (fs : list frag) (k : key) (b : Z) : Prop :=
+  Definition is_majority (ds : opts) (fs : list frag) (k : key) (b : Z) : Prop :=
     In b acgt /\ forall b', In b' acgt -> b' <> b -> votes skip ds fs k b' < votes skip ds fs k b.
 
   Lemma strict_max_majority ds fs k b : bases_ok fs ->
@@ -714,7 +714,7 @@ End Major.
 
 (* ------------------------------------------------------------------ H'. the computed majority, tie / N corollaries, totality *)
 Section Major2.
-  Variable skip : bool -> frag -> bool.
+  Variable skip : opts -> frag -> bool.
 
   Lemma majority_unique ds fs k b1 b2 : is_majority skip ds fs k b1 -> is_majority skip ds fs k b2 -> b1 = b2.
   Proof.
@@ -794,11 +794,11 @@ Section Major2.
     destruct f as [|r1 [|r2 [|r3 f]]]; try discriminate. cbn [nth_error].
     destruct (skip ds [r1; r2]); [reflexivity|]. cbn [negb andb].
     destruct (window ds r1 r2) as [w| |] eqn:Ew; try reflexivity.
-    - destruct (read_dict w r1) as [d1| |] eqn:E1; try reflexivity.
-      + destruct (read_dict w r2) as [d2| |] eqn:E2; try reflexivity.
+    - destruct (read_dict w (flt1 ds) r1) as [d1| |] eqn:E1; try reflexivity.
+      + destruct (read_dict w (flt2 ds) r2) as [d2| |] eqn:E2; try reflexivity.
         destruct r2 as [r|]; cbn [read_dict] in E2; [destruct (r_md r)|]; discriminate.
       + destruct r1 as [r|]; cbn [read_dict] in E1; [destruct (r_md r)|]; discriminate.
-    - unfold window in Ew. destruct ds; [|discriminate]. destruct r1 as [a|], r2 as [b|]; try discriminate.
+    - unfold window in Ew. destruct (o_ds ds); [|discriminate]. destruct r1 as [a|], r2 as [b|]; try discriminate.
       destruct (r_rev a && negb (r_rev b)); [discriminate|]. destruct (negb (r_rev a) && r_rev b); discriminate.
   Qed.
 
@@ -865,7 +865,7 @@ Section Major2.
 
   (* ---------------------------------------------------------------- K. one call per fragment *)
   Definition vsum (v : vec) : Z := vnth 0 v + vnth 1 v + vnth 2 v + vnth 3 v + vnth 4 v.
-  Definition has_call (ds : bool) (k : key) (f : frag) : bool :=
+  Definition has_call (ds : opts) (k : key) (f : frag) : bool :=
     match frag_call skip ds f k with Some _ => true | None => false end.
 
   Lemma call_ind_sum o : (forall b, o = Some b -> base_index b <> None) ->
@@ -1061,7 +1061,7 @@ Proof.
 Qed.
 
 (* ------------------------------------------------------------------ K. what a read contributes: its aligned triples inside the window *)
-Definition call_pos (c : Z * Z * Z) : Z := let '(p, _, _) := c in p.
+Definition call_pos (c : acall) : Z := let '(p, _, _, _, _) := c in p.
 
 Lemma fold_dset_notin {A} (items : list (key * A)) k : ~ In k (map fst items) ->
   forall d, dget k (fold_left (fun d kv => dset (fst kv) (snd kv) d) items d) = dget k d.
@@ -1091,31 +1091,37 @@ Proof.
   apply in_map. tauto.
 Qed.
 
-Lemma read_items_keys w r :
-  map fst (read_items w r) =
-  map (fun p0 => (r_contig r, p0)) (map call_pos (filter (fun c : Z * Z * Z => let '(p0, _, _) := c in in_win w p0) (r_calls r))).
-Proof. unfold read_items. rewrite !map_map. apply map_ext. intros [[p0 b0] q0]. reflexivity. Qed.
+Lemma read_items_keys w fl r :
+  map fst (read_items w fl r) = map (fun p0 => (r_contig r, p0)) (map call_pos (filter (keep_call w fl r) (r_calls r))).
+Proof. unfold read_items. rewrite !map_map. apply map_ext. intros [[[[p0 b0] q0] qp0] rb0]. reflexivity. Qed.
 
-Theorem read_dict_get w r d c p b q : read_dict w (Some r) = Ok d -> NoDup (map call_pos (r_calls r)) ->
-  (dget (c, p) d = Some (b, q) <-> c = r_contig r /\ in_win w p = true /\ In (p, b, q) (r_calls r)).
+(* a mate contributes (b, q) at (c, p) iff it is on contig c and one of its aligned pairs at p carries (b, q) and passes
+   every filter of the comprehension (window, min_phred_score, skipped cycles, only_include_refbase) *)
+Theorem read_dict_get w fl r d c p b q : read_dict w fl (Some r) = Ok d -> NoDup (map call_pos (r_calls r)) ->
+  (dget (c, p) d = Some (b, q) <->
+   c = r_contig r /\ exists qp rb, In (p, b, q, qp, rb) (r_calls r) /\ keep_call w fl r (p, b, q, qp, rb) = true).
 Proof.
   cbn [read_dict]. destruct (r_md r); [|discriminate]. intros H Hn. inversion H; subst d. clear H. split.
   - intros H. apply dict_of_get in H. unfold read_items in H. apply in_map_iff in H.
-    destruct H as ([[p' b'] q'] & E & Hin). inversion E; subst. apply filter_In in Hin. tauto.
-  - intros (-> & Hw & Hin). apply dict_of_in.
+    destruct H as ([[[[p' b'] q'] qp] rb] & E & Hin). inversion E; subst. apply filter_In in Hin.
+    split; [reflexivity|]. exists qp, rb. tauto.
+  - intros (-> & qp & rb & Hin & Hk). apply dict_of_in.
     + rewrite read_items_keys. apply FinFun.Injective_map_NoDup; [intros x y Hxy; inversion Hxy; reflexivity|].
       apply NoDup_map_filter. assumption.
-    + unfold read_items. apply in_map_iff. exists (p, b, q). split; [reflexivity|]. apply filter_In. tauto.
+    + unfold read_items. apply in_map_iff. exists (p, b, q, qp, rb). split; [reflexivity|]. apply filter_In. tauto.
 Qed.
+
+Lemma keep_call_default w r p b q qp rb : keep_call w (flt1 (dflt false)) r (p, b, q, qp, rb) = in_win w p.
+Proof. cbn. rewrite !andb_true_r. reflexivity. Qed.
 
 (* ------------------------------------------------------------------ D16: /repo HEAD's skip rule drops R2-only fragments *)
 Definition ex_read (rev : bool) (b : Z) : option read :=
-  Some {| r_contig := 0; r_start := 20; r_end := 21; r_rev := rev; r_md := true; r_calls := [(20, b, 30)] |}.
+  Some {| r_contig := 0; r_start := 20; r_end := 21; r_rev := rev; r_md := true; r_calls := [(20, b, 30, 0, bA)]; r_qlen := 1 |}.
 Definition ex_d16 : list frag := [[ex_read false bA; None]; [None; ex_read true bC]; [None; ex_read true bC]].
 
 Lemma head_refuted :
-  exists fs out, pre fs = true /\ mol_consensus skip_head false fs = Ok out /\
-                 majority skip_fixed false fs (0, 20) = Some bC /\ dget (0, 20) out = Some bA.
+  exists fs out, pre fs = true /\ mol_consensus skip_head (dflt false) fs = Ok out /\
+                 majority skip_fixed (dflt false) fs (0, 20) = Some bC /\ dget (0, 20) out = Some bA.
 Proof. exists ex_d16. eexists. vm_compute. repeat split. Qed.
 
 Lemma head_r2_only_no_call ds r k : frag_call skip_head ds [None; Some r] k = None.
@@ -1123,7 +1129,7 @@ Proof. unfold frag_call, skip_head, has_R1, has_R2. cbn [nth_error]. rewrite orb
 
 (* ------------------------------------------------------------------ wrappers in the shape of Props/C13.v *)
 Section Final.
-  Variable skip : bool -> frag -> bool.
+  Variable skip : opts -> frag -> bool.
 
   Lemma majority_pre ds fs out k b : pre fs = true -> mol_consensus skip ds fs = Ok out ->
     (dget k out = Some b <->
@@ -1166,52 +1172,53 @@ Section Final.
       unfold raises in Hr. cbn [negb andb] in Hr.
       unfold frag_consensus in *. cbn [nth_error] in *.
       destruct (window ds r1 r2) as [w| |]; try discriminate.
-      destruct (read_dict w r1) as [d1| |]; try discriminate.
-      destruct (read_dict w r2) as [d2| |]; discriminate.
+      destruct (read_dict w (flt1 ds) r1) as [d1| |]; try discriminate.
+      destruct (read_dict w (flt2 ds) r2) as [d2| |]; discriminate.
     - intros H. destruct f as [|r1 [|r2 f]]; cbn [length] in H; try lia; reflexivity.
   Qed.
 End Final.
 
-Lemma skip_fixed_no_dove f : skip_fixed false f = false.
-Proof. reflexivity. Qed.
-Lemma skip_fixed_dove f : skip_fixed true f = negb (has_R1 f && has_R2 f).
-Proof. unfold skip_fixed. cbn [andb]. destruct (has_R1 f), (has_R2 f); reflexivity. Qed.
+Lemma skip_fixed_no_dove ds f : o_ds ds = false -> skip_fixed ds f = false.
+Proof. unfold skip_fixed. intros ->. reflexivity. Qed.
+Lemma skip_fixed_dove ds f : o_ds ds = true -> skip_fixed ds f = negb (has_R1 f && has_R2 f).
+Proof. unfold skip_fixed. intros ->. cbn [andb]. destruct (has_R1 f), (has_R2 f); reflexivity. Qed.
 
 (* non-vacuity: three fragments; position 20 has a 1:1 tie (A vs C; the third mate pair disagrees at equal
    quality -> N, no vote), position 21 a 2:1 majority, position 22 only N calls *)
 Definition ex_rd (rev : bool) (calls : list (Z * Z * Z)) : option read :=
-  Some {| r_contig := 0; r_start := 20; r_end := 23; r_rev := rev; r_md := true; r_calls := calls |}.
+  Some {| r_contig := 0; r_start := 20; r_end := 23; r_rev := rev; r_md := true; r_qlen := 3;
+          r_calls := map (fun c => let '(p, b, q) := c in (p, b, q, p - 20, bA)) calls |}.
 Definition ex_mol : list frag :=
   [ [ex_rd false [(20, bA, 30); (21, bG, 30); (22, bN, 30)]; None];
     [None; ex_rd true [(20, bC, 30); (21, bG, 20); (22, bN, 2)]];
     [ex_rd false [(20, bA, 30); (21, bT, 37); (22, bN, 30)]; ex_rd true [(20, bC, 30); (21, bG, 30); (22, bA, 2)]] ].
 Lemma ex_mol_facts :
-  pre ex_mol = true /\ mol_consensus skip_fixed false ex_mol = Ok [((0, 21), bG)] /\
-  mol_consensus skip_fixed true ex_mol = Ok [((0, 21), bT)] /\
-  votes skip_fixed false ex_mol (0, 20) bA = 1 /\ votes skip_fixed false ex_mol (0, 20) bC = 1 /\
-  votes skip_fixed false ex_mol (0, 21) bG = 2 /\ votes skip_fixed false ex_mol (0, 21) bT = 1 /\
-  mol_consensus skip_fixed false (ex_mol ++ [[ex_rd false []]]) = IndexError.
+  pre ex_mol = true /\ mol_consensus skip_fixed (dflt false) ex_mol = Ok [((0, 21), bG)] /\
+  mol_consensus skip_fixed (dflt true) ex_mol = Ok [((0, 21), bT)] /\
+  votes skip_fixed (dflt false) ex_mol (0, 20) bA = 1 /\ votes skip_fixed (dflt false) ex_mol (0, 20) bC = 1 /\
+  votes skip_fixed (dflt false) ex_mol (0, 21) bG = 2 /\ votes skip_fixed (dflt false) ex_mol (0, 21) bT = 1 /\
+  mol_consensus skip_fixed (dflt false) (ex_mol ++ [[ex_rd false []]]) = IndexError.
 Proof. vm_compute. repeat split. Qed.
 
 Lemma pick2_hi_both b1 q1 b2 q2 : 0 <= q2 < q1 ->
   pick_best [Some (b1, q1); Some (b2, q2)] = (b1, q1) /\ pick_best [Some (b2, q2); Some (b1, q1)] = (b1, q1).
 Proof. intros H. exact (conj (pick2_hi_l b1 q1 b2 q2 H) (pick2_hi_r b2 q2 b1 q1 H)). Qed.
-Lemma skip_rule f : skip_fixed false f = false /\ skip_fixed true f = negb (has_R1 f && has_R2 f).
-Proof. exact (conj (skip_fixed_no_dove f) (skip_fixed_dove f)). Qed.
+Lemma skip_rule ds f : (o_ds ds = false -> skip_fixed ds f = false) /\ (o_ds ds = true -> skip_fixed ds f = negb (has_R1 f && has_R2 f)).
+Proof. exact (conj (skip_fixed_no_dove ds f) (skip_fixed_dove ds f)). Qed.
 
 (* concrete instances of the hypotheses used in Props (non-vacuity) *)
 Lemma ex_tie_facts :
-  votes skip_fixed false ex_mol (0, 20) bA = votes skip_fixed false ex_mol (0, 20) bC /\
-  forallb (fun b => votes skip_fixed false ex_mol (0, 20) b <=? votes skip_fixed false ex_mol (0, 20) bA) acgt = true /\
-  frag_call skip_fixed false (nth 2 ex_mol []) (0, 20) = None /\
-  forallb (fun f => match frag_call skip_fixed false f (0, 22) with None => true | Some _ => false end) ex_mol = true /\
-  majority skip_fixed false ex_mol (0, 20) = None /\ majority skip_fixed false ex_mol (0, 21) = Some bG /\
-  specb skip_fixed false ex_mol [((0, 21), bG)] = true /\ specb skip_fixed false ex_mol [((0, 21), bG); ((0, 20), bA)] = false.
+  votes skip_fixed (dflt false) ex_mol (0, 20) bA = votes skip_fixed (dflt false) ex_mol (0, 20) bC /\
+  forallb (fun b => votes skip_fixed (dflt false) ex_mol (0, 20) b <=? votes skip_fixed (dflt false) ex_mol (0, 20) bA) acgt = true /\
+  frag_call skip_fixed (dflt false) (nth 2 ex_mol []) (0, 20) = None /\
+  forallb (fun f => match frag_call skip_fixed (dflt false) f (0, 22) with None => true | Some _ => false end) ex_mol = true /\
+  majority skip_fixed (dflt false) ex_mol (0, 20) = None /\ majority skip_fixed (dflt false) ex_mol (0, 21) = Some bG /\
+  specb skip_fixed (dflt false) ex_mol [((0, 21), bG)] = true /\ specb skip_fixed (dflt false) ex_mol [((0, 21), bG); ((0, 20), bA)] = false.
 Proof. vm_compute. repeat split. Qed.
 Lemma ex_perm_facts :
-  Permutation (rev ex_mol) ex_mol /\ mol_consensus skip_fixed false (rev ex_mol) = mol_consensus skip_fixed false ex_mol /\
-  mol_consensus skip_fixed false (ex_mol ++ rev ex_mol) = mol_consensus skip_fixed false ex_mol /\
-  mol_table skip_fixed false ex_mol [] = Ok [((0, 20), (1, 1, 0, 0, 0)); ((0, 21), (0, 0, 2, 1, 0))].
+  Permutation (rev ex_mol) ex_mol /\ mol_consensus skip_fixed (dflt false) (rev ex_mol) = mol_consensus skip_fixed (dflt false) ex_mol /\
+  mol_consensus skip_fixed (dflt false) (ex_mol ++ rev ex_mol) = mol_consensus skip_fixed (dflt false) ex_mol /\
+  mol_table skip_fixed (dflt false) ex_mol [] = Ok [((0, 20), (1, 1, 0, 0, 0)); ((0, 21), (0, 0, 2, 1, 0))].
 Proof. split; [symmetry; apply Permutation_rev|]. vm_compute. repeat split. Qed.
 Lemma ex_pick_facts :
   pick_best [Some (bA, 30); Some (bC, 30); Some (bA, 30)] = (bN, 0) /\
@@ -1224,7 +1231,7 @@ Qed.
 
 (* ------------------------------------------------------------------ L. histories: get_consensus is stateless *)
 Section History.
-  Variable skip : bool -> frag -> bool.
+  Variable skip : opts -> frag -> bool.
 
   Lemma step_state st o : fst (step skip st o) = st ++ op_frags o.
   Proof. destruct o as [[|] f|f|fs|ds pr]; cbn [step fst op_frags]; rewrite ?app_nil_r; reflexivity. Qed.
@@ -1270,8 +1277,8 @@ Section History.
 End History.
 
 Definition ex_history : list op :=
-  [OpAdd true (nth 0 ex_mol []); OpGet false false; OpMol [nth 1 ex_mol []; nth 2 ex_mol []]; OpGet false false;
-   OpAdd false (nth 0 ex_mol []); OpGet true true; OpRaw (nth 1 ex_mol []); OpGet false false].
+  [OpAdd true (nth 0 ex_mol []); OpGet (dflt false) false; OpMol [nth 1 ex_mol []; nth 2 ex_mol []]; OpGet (dflt false) false;
+   OpAdd false (nth 0 ex_mol []); OpGet (dflt true) true; OpRaw (nth 1 ex_mol []); OpGet (dflt false) false].
 Lemma ex_history_facts :
   run_ops skip_fixed [] ex_history =
   [AnsCons (Ok [((0, 20), bA); ((0, 21), bG)]);
@@ -1280,3 +1287,18 @@ Lemma ex_history_facts :
    AnsCons (Ok [((0, 20), bC); ((0, 21), bG)])] /\
   held ex_history = ex_mol ++ [nth 1 ex_mol []].
 Proof. vm_compute. split; reflexivity. Qed.
+
+(* the options matter: with min_phred_score=25 the quality-20 G of the second fragment no longer votes at 21 (tie G/T);
+   a query with options followed by a plain query answers each for its own options *)
+Definition ex_minq : opts :=
+  {| o_ds := false; o_refbase := None; o_minq := Some 25; o_sf1 := None; o_sl1 := None; o_sf2 := None; o_sl2 := None;
+     o_d1 := 0; o_d2 := 0 |}.
+Definition ex_skipc : opts :=
+  {| o_ds := true; o_refbase := Some bA; o_minq := None; o_sf1 := Some 0; o_sl1 := None; o_sf2 := None; o_sl2 := Some 1;
+     o_d1 := 1; o_d2 := 0 |}.
+Lemma ex_opts_facts :
+  mol_consensus skip_fixed ex_minq ex_mol = Ok [] /\
+  mol_consensus skip_fixed (dflt false) ex_mol = Ok [((0, 21), bG)] /\
+  run_ops skip_fixed [] [OpMol ex_mol; OpGet ex_minq false; OpGet (dflt false) false; OpGet ex_skipc false] =
+  [AnsCons (Ok []); AnsCons (Ok [((0, 21), bG)]); AnsCons (Ok [((0, 21), bT)])].
+Proof. vm_compute. repeat split. Qed.
